@@ -131,6 +131,50 @@ func runC01(c *runCfg) error {
 			}
 		}
 	}
+	// several users authenticate on one server at the same time: the startup of one falls between the password
+	// request and the password of another, in every order; right and wrong passwords mixed. Each connection is
+	// judged on its own credentials.
+	{
+		rounds := 24
+		if c.tier == "thorough" {
+			rounds = 400
+		}
+		for r := 0; r < rounds; r++ {
+			cfg := simpleCfg(256)
+			cfg.auth = []string{"pw", "pw", "reject", "accept"}[r%4]
+			cfg.authPW = []byte("secret")
+			n := 2 + r%3
+			var cases []*caseT
+			for k := 0; k < n; k++ {
+				pw := []byte("secret")
+				if (r+k)%3 == 1 {
+					pw = []byte(fmt.Sprintf("wrong-%d", k))
+				}
+				cs := lockCase(0, "overlap", cfg, startupMsg("user", fmt.Sprintf("user%d", k), "database", fmt.Sprintf("db%d", k)), [][]byte{mPassword(pw), mQuery([]byte("select 1")), mTerminate()})
+				cs.pre = 2
+				cs.id = fmt.Sprintf("%d.%d", id, k)
+				cases = append(cases, cs)
+			}
+			// all startups first, then the passwords in another order, then the rest
+			var sched []int
+			for k := 0; k < n; k++ {
+				sched = append(sched, k)
+			}
+			for k := n - 1; k >= 0; k-- {
+				sched = append(sched, (k+r)%n)
+			}
+			for j := 0; j < 2; j++ {
+				for k := 0; k < n; k++ {
+					sched = append(sched, k)
+				}
+			}
+			if r%2 == 1 {
+				sched = g.schedule(cases)
+			}
+			emitMulti(c, "overlap", cases, sched, false)
+			id++
+		}
+	}
 	// corpus: the pinned witness — wrong password followed by a query
 	emit("corpus", "pw", startups[0], mPassword([]byte("bad")), conts[1], 1)
 	emit("corpus", "pw", startups[0], mPassword([]byte("bad")), conts[2], 1)
